@@ -41,6 +41,7 @@ type Profile struct {
 	PValid        int  // % of primitive leaves given a value their own schema accepts
 	PSpecialFloat int  // % of float inputs / validated float values that are NaN or +-Inf
 	PGlobal       int  // % of cases run with a global conf.Coercers override (String, Bool or Time) installed
+	PStructIn     int  // % of top-level struct records handed over as a Go struct value instead of a map
 	NilBias       bool // whole inputs are re-drawn (up to 10 times) until the implementation reports no issues
 	Repeats       int  // how many times a case is re-run (with reshuffled schema insertion orders and varying pool states)
 }
@@ -50,7 +51,7 @@ func DefaultProfile() Profile {
 		Name: "default", MaxDepth: 3, MaxFields: 3, MaxElems: 3,
 		PCatch: 20, PDefault: 20, PRequired: 45, PTests: 60, PUserTest: 25, PPT: 15, PPTErr: 25, POpts: 20,
 		PIssuePath: 0, PTags: 30, PCustom: 5, PPre: 5, PPtr: 15, PSlice: 20, PStruct: 25,
-		PWrongType: 12, PAbsent: 18, PInvalid: 30, PCoercer: 4, PLayout: 30, PPrefill: 30, PExtra: 30, PGlobal: 3, PSpecialFloat: 6,
+		PWrongType: 12, PAbsent: 18, PInvalid: 30, PCoercer: 4, PLayout: 30, PPrefill: 30, PExtra: 30, PGlobal: 3, PSpecialFloat: 6, PStructIn: 10,
 		Kinds: []string{KString, KString, KInt, KInt, KInt32, KInt64, KFloat64, KFloat32, KBool, KTime},
 	}
 }
@@ -293,7 +294,7 @@ func (g *Gen) prim(kind string) *Node {
 	return n
 }
 
-var keyPool = []string{"name", "age", "email", "tags", "addr", "flag", "when", "score", "items", "nick", "Zip", "aVeryLongFieldNameThatIsLongerThanThirtyTwoBytes", "x", "id"}
+var keyPool = []string{"name", "age", "email", "tags", "addr", "flag", "when", "score", "items", "nick", "Zip", "aVeryLongFieldNameThatIsLongerThanThirtyTwoBytes", "x", "id", "Count", "Ratio", "Active", "At"}
 
 func (g *Gen) node(depth int) *Node {
 	r := g.R
@@ -363,8 +364,14 @@ func (g *Gen) strct(depth int) *Node {
 	n := &Node{Kind: KStruct}
 	nf := 1 + r.Intn(g.P.MaxFields)
 	used := map[string]bool{}
+	// records meant to be handed over as Go struct values: every key an exported identifier
+	exported := depth == 0 && r.P(g.P.PStructIn)
+	n.Exported = exported
 	for len(n.Fields) < nf {
 		k := Pick(r, keyPool)
+		if exported {
+			k = Pick(r, []string{"Count", "Ratio", "Active", "At", "Zip", "Label", "Total"})
+		}
 		if used[GoName(k)] {
 			continue
 		}
@@ -377,6 +384,9 @@ func (g *Gen) strct(depth int) *Node {
 			f.Tags = map[string]string{}
 			if r.P(60) {
 				f.Tags["zog"] = "z_" + k
+				if exported {
+					f.Tags["zog"] = "Z_" + k
+				}
 			}
 			if r.P(40) {
 				f.Tags["json"] = "j_" + k
@@ -486,6 +496,7 @@ func ProfileByName(name string) Profile {
 		p.PAbsent = 45
 		p.PDefault = 35
 		p.PCatch = 10
+		p.PStructIn = 30
 	case "C09":
 		p.MaxFields = 4
 		p.PStruct = 40
